@@ -20,6 +20,11 @@ Proof. exact C05Facts.C04_max_bonus. Qed.
 Theorem C04_prefix_linear : C04_prefix_linear_stmt.
 Proof. exact ScoreFacts.C04_prefix_linear. Qed.
 
+(* the matrix path is taken within the documented limits (100 KiB cells, needle 2048, haystack 65535):
+   the translated guard of MatrixSlab::alloc is the documented one *)
+Theorem C04_slab_guard : forall hl nl, alloc_refuses hl nl = spec_matrix_refuses hl nl.
+Proof. reflexivity. Qed.
+
 Example C04_nonvacuous :
   let cfg := config_of preset_match_paths true true false in
   run cfg Fuzzy {| rp := Ascii; cs := [32; 97; 47; 97] |} {| rp := Ascii; cs := [97] |} = Match 34 [3].
@@ -28,3 +33,4 @@ Proof. vm_compute. reflexivity. Qed.
 Print Assumptions C04_best_pos.
 Print Assumptions C04_max_bonus.
 Print Assumptions C04_prefix_linear.
+Print Assumptions C04_slab_guard.
